@@ -159,6 +159,7 @@ fn run_mode(mode: &str, conns: &[(bool, Vec<String>)], keep: &[bool]) -> String 
 }
 
 pub fn run(case: &str) -> String {
+    crate::util::note_current(case);
     // P = proceed, X = setup hook drops it, K = proceed and the client keeps it open across StopAccepting
     let keep: Vec<bool> = case.split('/').map(|c| c.starts_with("K:")).collect();
     let conns: Vec<(bool, Vec<String>)> = case.split('/').map(|c| {
@@ -172,15 +173,17 @@ pub fn gen(ctx: &Ctx) {
     use crate::s_connexp::{exchange, Req};
     let mut rng = Rng::new(ctx.seed, "modes");
     let mut out = Out::new(&ctx.dir, "modes");
-    out.rule = "histories of 1..4 sequential connections, each with a setup decision (proceed / drop) and 0..3 lock-step requests (no body / fixed / chunked; handlers: read all, none, close, Err, \
+    out.rule = "histories of 1..4 sequential connections, each with a setup decision (proceed / drop) and 0..3 lock-step requests (no body / fixed / chunked; handlers: read all, none, close, Err, slow (answer first, linger 25 ms: the next request or the close arrives while the request is in flight), \
                 hook answers; malformed head; client close without request), run against serve, serve_threaded and serve_epoll on real listeners with logging setup / pre-routing / teardown hooks; \
-                the server is then stopped through the setup hook. non-trivial = at least one request answered".into();
+                one history in six keeps thread_count (4) connections open side by side; the server is then stopped through the setup hook. non-trivial = at least one request answered".into();
     let n = if ctx.thorough { 1000 } else { 60 };
     for _ in 0..n {
         let nc = rng.range(1, 4);
         let mut conns = Vec::new();
+        // one history in six keeps its connections open side by side, up to the pool size (thread_count = 4)
+        let side_by_side = rng.chance(1, 6);
         for _ in 0..nc {
-            let proceed = !rng.chance(1, 6);
+            let proceed = side_by_side || !rng.chance(1, 6);
             let mut steps: Vec<String> = Vec::new();
             let nr = rng.below(4);
             let mut ended = false;
@@ -190,11 +193,13 @@ pub fn gen(ctx: &Ctx) {
                 if kind == 0 {
                     steps.push(format!("D{}", hex(b"GET / HTTP/1.1\r\nbroken header\r\n\r\n"))); steps.push("R".into()); ended = true; continue;
                 }
-                let body: Vec<u8> = if rng.chance(1, 2) { vec![] } else { (0..rng.range(1, 50)).map(|_| b'a' + rng.below(26) as u8).collect() };
+                // (a slow request has no body: an unread body followed at once by the next request is finding F20c, property C07)
+                let body: Vec<u8> = if rng.chance(1, 2) || kind == 9 { vec![] } else { (0..rng.range(1, 50)).map(|_| b'a' + rng.below(26) as u8).collect() };
                 let mut fields: Vec<(String, Vec<u8>)> = Vec::new();
                 let wire = if body.is_empty() { vec![] } else if rng.chance(1, 2) { fields.push(("Content-Length".into(), body.len().to_string().into_bytes())); body.clone() }
                            else { fields.push(("Transfer-Encoding".into(), b"chunked".to_vec())); crate::s_body::encode_chunked(&mut rng, &body) };
-                let path = match kind { 1 => "/close", 2 if j + 1 == nr => "/err", 3 => "/none", 4 => "/first", 5 => "/nosuch", 6 => "/reader/3000", _ => "/all" };
+                // 9: a slow handler (answers, then lingers 25 ms): what the client does next reaches the server while the request is in flight
+                let path = match kind { 1 => "/close", 2 if j + 1 == nr => "/err", 3 => "/none", 4 => "/first", 5 => "/nosuch", 6 => "/reader/3000", 9 => "/slow/25", _ => "/all" };
                 if kind == 7 { fields.push(("x-hook".into(), b"answer".to_vec())); }
                 if kind == 8 { fields.push(("Connection".into(), b"close".to_vec())); }
                 let r = Req { method: if wire.is_empty() { "GET" } else { "POST" }, path: path.into(), fields, body: wire };
@@ -203,11 +208,17 @@ pub fn gen(ctx: &Ctx) {
                 if path == "/close" || path == "/err" || kind == 8 { ended = true; }
             }
             if rng.chance(1, 3) { steps.push("X".into()); }
-            conns.push(format!("{}:{}", if proceed { "P" } else { "X" }, steps.join(";")));
+            if side_by_side { steps.retain(|x| x != "X"); }
+            conns.push(format!("{}:{}", if side_by_side { "K" } else if proceed { "P" } else { "X" }, steps.join(";")));
         }
         let mut case = conns.join("/");
         let mut class = format!("conns{nc}");
-        if rng.chance(1, 8) {
+        if side_by_side {
+            // fill up to exactly thread_count simultaneously open connections
+            let r = Req { method: "GET", path: "/none".into(), fields: vec![], body: vec![] };
+            for _ in nc..4 { case.push_str(&format!("/K:{}", exchange(&mut rng, &r, false).join(";"))); }
+            class = "four-open-side-by-side".into();
+        } else if rng.chance(1, 8) {
             // one more connection: a request, then the client keeps it open while the server is told to stop
             let r = Req { method: "GET", path: "/none".into(), fields: vec![], body: vec![] };
             case.push_str(&format!("/K:{}", exchange(&mut rng, &r, false).join(";")));
